@@ -6,7 +6,7 @@ FLAVORS = ['default']
 RULE = ('ordered pairs (A, B) and sequences A1 A2 A3 B of terminated messages from the generators of C02/C05/C06 (incl. messages that fail midway, leave result blocks unfinished, '
         'leave parameters unread, or contain undefined headers); B is run after A on one context and alone on a fresh context of the implementation and the events of B are compared '
         '(handler starts, parameters, output, newly queued errors); in a share of the pairs B arrives unterminated in the same input call as the end of A and is executed by a zero-length call; each scenario is also compared with the model. The error queue is large enough not to overflow and scripts do not query it, '
-        'so effects through queue and registers (excepted by the property) are not observed. Non-trivial: A ran a handler and B ran a handler; distinct = distinct lines.')
+        'so effects through queue and registers (excepted by the property) are not observed; when A nevertheless fills the queue (dozens of invalid characters) the overflow notifications are dropped from the comparison. Non-trivial: A ran a handler and B ran a handler; distinct = distinct lines.')
 MODELLED = 'all per-message and per-unit scratch state of scpi_t (first_output, output_count, input_count, cmd_error, arbitrary_remaining, param_list, cmd_prev) is in ParserModel.ctx'
 ASSUMPTIONS = ['effects that flow through the status registers and the error queue are excepted by the property; "queue drained" notifications (error callback with 0) are dropped from the comparison']
 
@@ -105,13 +105,13 @@ def streams(tier, rng):
         if capb == 256 and Bnt and rng.random() < 0.25:
             # B arrives unterminated in the same input call as the end of A and is executed by a zero-length (flush) call
             ins2 = ins[:-1] + [('I', ins[-1][1] + Bnt)]
-            ab = gen.scenario(capb, 64, table, ins2 + [('I', b'')])
-            b = gen.scenario(capb, 64, table, [('I', Bnt), ('I', b'')])
+            ab = gen.scenario(capb, 250, table, ins2 + [('I', b'')])
+            b = gen.scenario(capb, 250, table, [('I', Bnt), ('I', b'')])
             pairs.append((len(cases), len(ins2), 1, [x for _, x in ins], Bnt + b' <flush>'))
             cases += [ab, b]
             continue
-        ab = gen.scenario(capb, 64, table, ins + [('I', B)])
-        b = gen.scenario(capb, 64, table, [('I', B)])
+        ab = gen.scenario(capb, 250, table, ins + [('I', B)])
+        b = gen.scenario(capb, 250, table, [('I', B)])
         As = [x for _, x in ins]
         pairs.append((len(cases), len(As), 0, As, B))
         cases += [ab, b]
@@ -120,6 +120,10 @@ def streams(tier, rng):
         res = []
         for i, na, nb, As, B in pairs:
             x, y = bevents(outs[i], na), bevents(outs[i + 1], nb)
+            if ' E-350' in outs[i]:
+                # A filled the error queue: the overflow notifications B then sees are an effect through the queue, which the property excepts
+                x = ' '.join(t for t in x.split(' ') if t != 'E-350')
+                y = ' '.join(t for t in y.split(' ') if t != 'E-350')
             if x != y:
                 res.append((i, 'leak', 'message %r behaves differently after %r than on a fresh context\n  after A: %s\n  fresh   : %s' % (B, As, x[:400], y[:400])))
         return res
